@@ -93,9 +93,10 @@ class Finders:
     if gfa_line.record_type == "L":
       found = self._search_link(gfa_line.oriented_from, gfa_line.oriented_to,
                                 gfa_line.alignment)
-      if found is None:
-        # the ID tag of links belongs to the namespace of the line names
-        found = self.line(gfa_line.name)
+      # the ID tag of links belongs to the namespace of the line names
+      named = self.line(gfa_line.name)
+      if named is not None and named is not found:
+        return named
       return found
     elif gfa_line.record_type in self.RECORDS_WITH_NAME:
       return self.line(gfa_line.name)
